@@ -12,6 +12,7 @@ structure Src where
   calls : Nat := 0
   eofWithData : Bool := false   -- the underlying reader reports EOF together with its last data
   wrapEof : Bool := false       -- eofReaderWrapper.isEof: the underlying reader is not called again
+  failWithData : Bool := false  -- the failing call still delivers its bytes together with the error
 deriving Repr
 
 inductive RErr | eof | fail deriving Repr, DecidableEq
@@ -26,13 +27,14 @@ deriving Repr
 
 def Src.read (s : Src) (room : Nat) : (List Byte × Option RErr × Src) :=
   if s.wrapEof then ([], some .eof, s)
-  else if s.failAt == some s.calls then ([], some .fail, { s with calls := s.calls + 1 })
+  else if s.failAt == some s.calls && !(s.failWithData && !s.rest.isEmpty) then ([], some .fail, { s with calls := s.calls + 1 })
   else if s.rest.isEmpty then ([], some .eof, { s with calls := s.calls + 1 })
   else
     let want := match s.sched with | [] => s.rest.length | k :: _ => k
     let n := min (min want room) s.rest.length
     let atEnd : Bool := s.eofWithData && n == s.rest.length && n > 0
-    (s.rest.take n, none, { s with rest := s.rest.drop n, sched := s.sched.drop 1, calls := s.calls + 1, wrapEof := atEnd })
+    let err : Option RErr := if s.failAt == some s.calls then some .fail else none
+    (s.rest.take n, err, { s with rest := s.rest.drop n, sched := s.sched.drop 1, calls := s.calls + 1, wrapEof := atEnd && err.isNone })
 
 def writeAll (a : Array Byte) (off : Nat) : List Byte → Array Byte
   | [] => a
@@ -194,9 +196,9 @@ def readAllLoop (fuel n : Nat) (r : Reader) (acc : List (List (List Byte))) : Ou
     | .ok (r, true) => readAllLoop fuel n r (acc ++ [r.row])
     | .ok (r, false) => .ok (acc, r.fs.err)
 
-def readAll (doc : List Byte) (sched : List Nat) (delim : Byte := 44) (cap : Nat := 1024) (failAt : Option Nat := none) (eofWithData : Bool := false) : Out (List (List (List Byte)) × Option RErr) :=
+def readAll (doc : List Byte) (sched : List Nat) (delim : Byte := 44) (cap : Nat := 1024) (failAt : Option Nat := none) (eofWithData : Bool := false) (failWithData : Bool := false) : Out (List (List (List Byte)) × Option RErr) :=
   let fuel := 8 * doc.length + 64
-  let r : Reader := { fs := { buf := { data := Array.replicate cap 0, len := 0, cursor := 0, src := { rest := doc, sched := sched, failAt := failAt, eofWithData := eofWithData } }, delim := delim } }
+  let r : Reader := { fs := { buf := { data := Array.replicate cap 0, len := 0, cursor := 0, src := { rest := doc, sched := sched, failAt := failAt, eofWithData := eofWithData, failWithData := failWithData } }, delim := delim } }
   readAllLoop fuel fuel r []
 
 def render (o : Out (List (List (List Byte)) × Option RErr)) : String :=
